@@ -182,35 +182,32 @@ def rule_b(ctx, R):
         return ctx.ob("C16-b", "an ordered comparison error-vs-from_f64(tolerance) guards Ok in the Some(tol) region", False, fn,
                       "no-stability-comparison",
                       detail="no PartialOrd comparison against from_f64(<Some payload of matrix_stability_test>) found in the Some region")
-    for okbi, si, s in oks:
-        if okbi not in region:
+    m0 = {val: tgt for val, tgt in ot["targets"]}
+    none_t = m0.get("0", ot["otherwise"] if "1" in m0 else None)
+    good_edges = set()
+    notes = []
+    for bi, t, name, side, err_root in cands:
+        te, fe = bool_edges(body, bi)
+        le_like = (side == "err_left" and name in ("le", "lt")) or (side == "err_right" and name in ("ge", "gt"))
+        if not le_like:
+            notes.append("`%s` at %s is `error > tol` shaped: the Ok side is its FALSE edge, which a NaN error takes too"
+                         % (name if side == "err_left" else name + " (operands swapped)", pat.where(t)))
             continue
-        verdicts = []
-        passed = False
-        for bi, t, name, side, err_root in cands:
-            te, fe = bool_edges(body, bi)
-            # which edge means error <= tol (or < tol)?
-            le_like = (side == "err_left" and name in ("le", "lt")) or (side == "err_right" and name in ("ge", "gt"))
-            if not le_like:
-                # comparison is `error > tol` shaped: Ok can only sit on its false edge, which NaN takes too
-                r = body.reachable_from(some_t, avoid_edges=frozenset([(bi, fe)]))
-                if okbi not in r:
-                    verdicts.append("Ok is reached only over the FALSE edge of `%s` at %s: a NaN error compares false and is returned as Ok"
-                                    % (name if side == "err_left" else name + " (operands swapped)", pat.where(t)))
-                continue
-            r = body.reachable_from(some_t, avoid_edges=frozenset([(bi, te)]))
-            if okbi in r:
-                verdicts.append("a path from Some(tol) reaches Ok without the true edge of the comparison at %s" % pat.where(t))
-                continue
-            # operand chain of `error`
-            ok_chain, why = check_error_chain(ctx, body, v, err_root, s)
-            if not ok_chain:
-                verdicts.append(why)
-                continue
-            passed = True
-            break
-        ctx.ob("C16-b", "Ok site bb%d: guarded by true edge of error<=tol" % okbi, passed, fn,
-               "stability-guard-nan-rejecting", where=pat.where(s), detail="; ".join(verdicts) or None)
+        ok_chain, why = check_error_chain(ctx, body, v, err_root, oks[0][2])
+        if not ok_chain:
+            notes.append(why)
+            continue
+        good_edges.add((bi, te))
+    avoid = set(good_edges)
+    if none_t is not None:
+        avoid.add((obi, none_t))
+    for okbi, si, s in oks:
+        r = body.reachable_from(0, avoid_edges=frozenset(avoid))
+        passed = okbi not in r
+        ctx.ob("C16-b", "Ok site bb%d: every path to it takes the None edge of the option or the TRUE edge of error<=tol" % okbi, passed, fn,
+               "stability-guard-nan-rejecting", where=pat.where(s),
+               detail="; ".join(notes) or "with matrix_stability_test = Some(tol) a path reaches this Ok(..) without passing the stability comparison "
+                                           "(%d NaN-rejecting comparison(s) found)" % len(good_edges))
 
 
 def _call_of(v, root):
